@@ -60,7 +60,9 @@ def has_wide(s: str) -> bool:
 
 ASCII_WORDS = ["a", "I", "ab", "to", "word", "hello", "world", "lorem", "ipsum", "x-y", "(q)", "a.b,c",
                "0123456789", "supercalifragilistic", "Zz", "ok!"]
-WIDE_WORDS = ["日", "日本語", "漢字", "かな", "中a文", "한글", "😀", "a😀b", "👍", "🎉🎉", "ＡＢ", "x日", "日x"]
+WIDE_WORDS = ["日", "日本語", "漢字", "かな", "中a文", "한글", "😀", "a😀b", "👍", "🎉🎉", "ＡＢ", "x日", "日x",
+              # boundary code points of the width table: last of a range / single-code-point ranges / first of a range
+              "\u2705\u2705", "a\u2b50", "\U0001f64f", "\ud7a3x", "\uff60", "\u23f0\u2728", "\u1100", "\U0001f300a"]
 ZERO_WORDS = ["e\u0301cole", "a\u0300\u0301", "a\u200bb", "\u200b", "n\u0303o", "\U0001f468\u200d\U0001f469\u200d\U0001f467",
               "x\ufe0f", "\u0301", "o\u0308\u0304k"]
 BOXES = ["ASCII", "ASCII2", "SQUARE", "ROUNDED", "HEAVY_HEAD", "HEAVY", "DOUBLE", "DOUBLE_EDGE", "MINIMAL",
